@@ -23,7 +23,11 @@
 //!   the reads made in `inner.update()` and in the first `inner.get()` after it are compared (they
 //!   causally precede the write of that state); later ones are only required not to panic.
 //! Where the statement is silent (is `inner.update()` still called after a failing `inner.set`? does
-//! the encoder wrapper touch the command slot when it writes a state?) every behaviour is accepted.
+//! the encoder wrapper touch the command slot when it writes a state? how many times is an inner method
+//! called? does the PID wrapper's motor get its value by following the PID inside its own `update()` or
+//! by a direct `set` from the wrapper, before or after its `update()`?) every behaviour is accepted:
+//! only "at least one update", "every set of the round carries exactly the expected value", the
+//! actuator's "set, then update" and error propagation are demanded.
 use rrtk::devices::wrappers::{ActuatorWrapper, GetterStateDeviceWrapper, PIDWrapper};
 use rrtk::streams::control::CommandPID;
 use rrtk::*;
@@ -535,8 +539,10 @@ fn run_act(rep: &mut Report, sub: &'static str, case: u64, rounds: &[SetRound], 
         rep.eval();
         match &before {
             Some(d) => {
-                if !(sets.len() == 1 && td_same(&sets[0].0, &d.value)) {
-                    rep.violation("C20/actuator/handed-data", sub, case, format!("round {}: terminal saw {:?} but the inner settable received {:?} (expected exactly one set with that data); {}", i, d.value, sets, hist()));
+                // at least one set, and every set of this round carries exactly that data (the statement
+                // does not say how many times the data are handed over)
+                if !(!sets.is_empty() && sets.iter().all(|x| td_same(&x.0, &d.value))) {
+                    rep.violation("C20/actuator/handed-data", sub, case, format!("round {}: terminal saw {:?} but the inner settable received {:?} (expected that data and nothing else); {}", i, d.value, sets, hist()));
                     return;
                 }
                 rep.tally("actuator_sets_compared");
@@ -549,15 +555,19 @@ fn run_act(rep: &mut Report, sub: &'static str, case: u64, rounds: &[SetRound], 
                 rep.tally("actuator_rounds_terminal_sees_nothing");
             }
         }
-        // ---- (b) "and then updates it": one inner update, after the set. After a failing set the
-        // statement only promises propagation, so an update is allowed but not required.
+        // ---- (b) "hands ... and then updates it": an inner update follows the (last) set; with no data
+        // there is at least one update. Call counts are not part of the statement. After a failing set
+        // the statement only promises propagation, so an update is allowed but not required.
         rep.eval();
         let set_failed = before.is_some() && r.reject.is_some();
         let order_ok = match (before.is_some(), set_failed) {
-            (true, false) => order == "su",
-            (true, true) => order == "s" || order == "su",
-            (false, _) => order == "u",
+            (true, false) => order.ends_with('u'),
+            (true, true) => true,
+            (false, _) => order.contains('u'),
         };
+        if order != (if before.is_none() { "u" } else if set_failed { "s" } else { "su" }) && !(set_failed && order == "su") {
+            rep.tally("actuator_call_sequence_other_than_one_set_one_update(not_judged)");
+        }
         if !order_ok {
             rep.violation("C20/actuator/inner-update", sub, case, format!("round {}: inner settable call sequence {:?} (s = set, u = update), terminal saw {:?}, set rejected = {}; {}", i, order, before, set_failed, hist()));
             return;
@@ -685,9 +695,12 @@ fn run_enc(rep: &mut Report, sub: &'static str, case: u64, rounds: &[EncRound], 
                 return;
             }
         };
-        // ---- (a) the inner getter is updated (once) by every update
+        // ---- (a) the inner getter is updated by every update (how many times is not part of the statement)
         rep.eval();
         if du != 1 {
+            rep.tally("encoder_inner_updated_more_or_less_than_once(not_judged_if_more)");
+        }
+        if du < 1 {
             rep.violation("C20/encoder/inner-update", sub, case, format!("round {}: inner getter updated {} times by one update(); {}", i, du, hist()));
             return;
         }
@@ -899,7 +912,13 @@ fn run_pid(rep: &mut Report, sub: &'static str, case: u64, c: &PidCase, observe:
         // ---- (a) motor values
         if let Some(exp_sets) = &exp_sets {
             rep.eval();
-            let ok = sets.len() == exp_sets.len() && sets.iter().zip(exp_sets.iter()).all(|(a, b)| same(a.0, b.0) && a.1 == b.1);
+            // twin output present: the motor is set at least once and every set of this round carries
+            // exactly that value; absent: the motor is not set. (Neither the call path — following vs a
+            // direct set — nor the number of sets is part of the statement.)
+            let ok = match exp_sets.first() {
+                Some(b) => !sets.is_empty() && sets.iter().all(|a| same(a.0, b.0) && a.1 == b.1),
+                None => sets.is_empty(),
+            };
             if !ok {
                 rep.violation("C20/pid/motor-value", sub, case, format!("round {}: motor received {:?}, a motor following a stand-alone CommandPID fed the same data receives {:?} (terminal saw {:?}); {}", i, sets.iter().map(|s| f(s.0)).collect::<Vec<_>>(), exp_sets.iter().map(|s| f(s.0)).collect::<Vec<_>>(), before, hist()));
                 return;
@@ -911,12 +930,17 @@ fn run_pid(rep: &mut Report, sub: &'static str, case: u64, c: &PidCase, observe:
                 }
                 None => rep.tally("pid_rounds_no_motor_value"),
             }
-            // ---- (b) the motor is updated exactly once per update (its set happens inside that update)
+            // ---- (b) the motor is updated at least once per wrapper update (otherwise its errors could
+            // not be propagated). The statement fixes neither how often, nor whether before or after the
+            // set; after a rejected set only propagation is promised, so no update is required then.
             rep.eval();
-            let want = if exp_sets.is_empty() { "u" } else { "us" };
-            if order != want {
-                rep.violation("C20/pid/motor-update", sub, case, format!("round {}: motor call sequence {:?}, expected {:?} (u = update, s = set from the followed PID); {}", i, order, want, hist()));
+            let set_failed = !exp_sets.is_empty() && r.reject.is_some();
+            if !set_failed && !order.contains('u') {
+                rep.violation("C20/pid/motor-update", sub, case, format!("round {}: the motor was not updated during the wrapper's update() (motor call sequence {:?}, u = update, s = set); {}", i, order, hist()));
                 return;
+            }
+            if order != (if exp_sets.is_empty() { "u" } else { "us" }) {
+                rep.tally("pid_motor_call_sequence_other_than_follow_in_update(not_judged)");
             }
         }
         // ---- (c) errors
